@@ -968,6 +968,7 @@ func init() {
 			c.Rule("oracle: every exported callable (BuiltinObjects, fmt/json/strings/time module functions, time methods via CallName, error New) x argument tuples of length 0..4 from the C19 pool (exhaustive to length 2; core pool^3 exhaustive; length 3/4 sampled) on every call route (Call, CallEx/CallName with each args|vargs split, three script call forms on a VM without recovery): no panic, no nil result, no crash or runaway for sizes that cannot be honoured. correspondence: hand models of the variadic bodies vs implementation (outcome class and value); distinct = distinct (function, outcome class, argument kinds)")
 			biCorr(c)
 			biOracle(c)
+			cyclicOracle(c)
 		},
 		Replay: biReplay,
 	})
